@@ -640,8 +640,9 @@ def diff_dumps(a: Any, b: Any, path: str = "") -> List[str]:
 #   (a) every field the generator generated for the variant: the parsed PDU's attribute of that name is compared with
 #       the GENERATED value (converted the way build() converts it, normalised by dump()); the check fields the library
 #       computed (crc / crc9 / 24-bit full-LC field) are compared with the assembled object's value;
-#   (b) every public, non-callable attribute that exists on BOTH the assembled and the parsed object and is not None on the
-#       assembled one (opcode, format, defaults of fields the variant does not carry ...), recursively for nested objects.
+#   (b) every attribute that corresponds to a CONSTRUCTOR PARAMETER of the class (inspect.signature(cls.__init__): the fields
+#       a caller can set), exists on BOTH the assembled and the parsed object and is not None on the assembled one (opcode,
+#       format, defaults of fields the variant does not carry ...), recursively for nested objects.
 # Skipped, never a violation: attributes that are None or absent on the assembled object and were not passed by build()
 # (diagnostics such as source_bits / raw / counters), names starting with "_", validity verdicts (*_ok), callables;
 # an attribute absent on one side is reported as a note.
@@ -707,9 +708,35 @@ def _diff_value(got, expected, path: str, out: List[str]):
         out.append(f"{path}: parsed {g!r} != generated {expected!r}")
 
 
+# constructor parameter -> attribute name, where the class stores it under another name
+_ATTR_OF_PARAM = {
+    "CSBK": {"manufacturers_feature_set_id": "feature_set"},
+    "FullLinkControl": {"flco": "full_link_control_opcode", "fid": "feature_set_id"},
+    "DataHeader": {"dpf": "data_packet_format"},
+}
+
+
+def _settable_attrs(o) -> List[str]:
+    """attribute names that correspond to CONSTRUCTOR PARAMETERS of the object's class: the fields a caller can set.
+    Everything else an object carries is derived or diagnostic (crc_received, source_bits, created_at ...) and is only
+    compared by explicit clauses."""
+    import inspect
+
+    try:
+        params = [n for n in inspect.signature(type(o).__init__).parameters if n != "self"]
+    except (TypeError, ValueError):
+        return []
+    ren = {}
+    for k in type(o).__mro__:
+        ren.update(_ATTR_OF_PARAM.get(k.__name__, {}))
+    return [ren.get(n, n) for n in params]
+
+
 def _diff_common(assembled, parsed, path: str, out: List[str], depth: int = 0):
     a, p = _public_attrs(assembled), _public_attrs(parsed)
-    for k in sorted(a):
+    for k in _settable_attrs(assembled):
+        if k not in a:
+            continue
         av = a[k]
         if av is None:
             continue
